@@ -206,7 +206,7 @@ fn callback<P: Pad>(kind: CbKind, node: &Node<P>) {
         world::live_remove(o);
     }
     emit(json!({"e": "cb", "cb": kind.name(), "o": o, "it": is_tracing(), "ok": ok}));
-    if kind == CbKind::Drop && ok && world::PENDING_NEW.with(|c| c.get()) == o {
+    if kind == CbKind::Drop && ok && world::PENDING_NEW.try_with(|c| c.get()).unwrap_or(0) == o {
         // The value never reached an allocation: Cc::new is unwinding (its automatic collection panicked)
         node.canary.set(DEAD);
         emit(json!({"e": "cbx", "cb": "drop", "o": o, "panic": false}));
